@@ -277,8 +277,24 @@ pub enum ChildOutcome {
     Timeout,
 }
 
-/// Re-execute the current binary with `args`, wall-clock limit `secs`, address-space limit
-/// `as_mb` (0 = unlimited).  stdout/stderr are inherited unless `quiet`.
+/// CPU seconds (user + system, all threads) a process has consumed so far, from /proc/<pid>/stat
+fn proc_cpu_secs(pid: u32) -> Option<u64> {
+    let s = fs::read_to_string(format!("/proc/{pid}/stat")).ok()?;
+    // the command name may contain spaces / parentheses: fields are counted after the last ')'
+    let rest = &s[s.rfind(')')? + 1..];
+    let f: Vec<&str> = rest.split_whitespace().collect();
+    // rest starts at field 3 (state): utime = field 14, stime = field 15
+    let ut: u64 = f.get(11)?.parse().ok()?;
+    let st: u64 = f.get(12)?.parse().ok()?;
+    let hz = unsafe { libc::sysconf(libc::_SC_CLK_TCK) }.max(1) as u64;
+    Some((ut + st) / hz)
+}
+
+/// Re-execute the current binary with `args`, time limit `secs`, address-space limit `as_mb`
+/// (0 = unlimited).  stdout/stderr are inherited unless `quiet`.
+/// The limit is on the CPU time the child consumed (a loaded or stalled machine must not turn into a
+/// "timeout" of the code under test); a child that stays blocked is given up after 4 x `secs` (at least
+/// `secs` + 300 s) of wall-clock time.
 pub fn run_child(args: &[String], secs: u64, as_mb: u64, quiet: bool) -> ChildOutcome {
     use std::os::unix::process::{CommandExt, ExitStatusExt};
     use std::process::{Command, Stdio};
@@ -316,7 +332,9 @@ pub fn run_child(args: &[String], secs: u64, as_mb: u64, quiet: bool) -> ChildOu
                 return ChildOutcome::Exit(st.code().unwrap_or(-1));
             }
             Ok(None) => {
-                if start.elapsed().as_secs() >= secs {
+                let wall = start.elapsed().as_secs();
+                let cpu = if wall >= secs { proc_cpu_secs(child.id()).unwrap_or(wall) } else { 0 };
+                if (wall >= secs && cpu >= secs) || wall >= (4 * secs).max(secs + 300) {
                     let _ = child.kill();
                     let _ = child.wait();
                     return ChildOutcome::Timeout;
